@@ -392,7 +392,14 @@ def run(c, facts, tier):
     arg_lang(c, facts, b, g, spec, scope, prim)
     c.floor("keyword alternatives", len(prim), 56)
     c.floor("prefix pairs", npairs, 11)
-    c.floor("nested parses", len(nested), 6)
+    # nested parses that can *yield a value* (the ones that only raise an error on a delimited word can be written without
+    # and_then — a look-ahead followed by the error — and then have nothing to consume)
+    def _only_fails(n_):
+        while n_["t"] in ("cut", "ctx"):
+            n_ = n_["p"]
+        return n_["t"] == "fail"
+
+    c.floor("nested parses", len([1 for _, n_ in nested if not _only_fails(n_["inner"])]), 3)
     # positive control: a nullary literal does not end at a boundary
     c.control("C05.boundary", not ends_at_boundary(g, {"t": "lit", "l": None, "s": "-empty"}, bnd), "fixture literal('-empty') is reported as unbounded")
     c.control("C05.whole-arg", not consumes_all(g, {"t": "set", "l": None, "cs": peg.cs_in("01234567"), "min": 3, "max": None}), "fixture take_while(3.., octal) is reported as partial")
